@@ -67,6 +67,14 @@ func c01Corpus() []c01issCase {
 		{Threads: []c01issThread{th("handshake", c01nmUni), th("manage", c01nmPuny), th("obtain", c01nmPuny)}, Policy: "seq", Pause: map[string]string{"0": "IssueEnd:"}, Class: "generic"},
 		{Threads: []c01issThread{th("handshake", c01nmCanon), th("obtain", c01nmCanon)}, Seeds: []c01issSeed{{c01nmCanon, "fresh"}}, Policy: "rr", Class: "generic"},
 		{Threads: []c01issThread{th("manage", c01nmCanon), th("handshake", c01nmCanon)}, Policy: "seq", Pause: map[string]string{"0": "Store:.crt"}, Backend: "file", Class: "generic"},
+		// a request reaches the lock with a context that ends at that very moment; the Locker grants the free lock
+		// all the same (FileStorage looks at the context only while it waits): the request fails, releases, and the
+		// next request for the name takes its turn -- it must not find the lock held for ever
+		{Threads: []c01issThread{th("obtain", c01nmCanon), th("manage", c01nmCanon)}, Policy: "seq", LockIgnoresCtx: true, Faults: map[string]int{"0:Lock:": c01fCancel}, Class: "generic"},
+		{Threads: []c01issThread{th("renew", c01nmCanon), th("renew", c01nmCanon), th("manage", c01nmCanon)}, Seeds: []c01issSeed{{c01nmCanon, "due"}}, Policy: "seq", LockIgnoresCtx: true, Faults: map[string]int{"0:Lock:": c01fCancel}, Class: "generic"},
+		{Threads: []c01issThread{th("manage", c01nmCanon), th("obtain", c01nmCanon)}, Policy: "seq", LockIgnoresCtx: true, Faults: map[string]int{"0:Lock:": c01fCancel}, Class: "generic"},
+		{Threads: []c01issThread{th("obtain", c01nmCanon), th("manage", c01nmCanon)}, Policy: "seq", LockIgnoresCtx: true, Faults: map[string]int{"0:Lock:": c01fCancel}, Backend: "file", Class: "generic"},
+		{Threads: []c01issThread{th("manage", c01nmCanon), th("handshake", c01nmCanon)}, Seeds: []c01issSeed{{c01nmCanon, "keyonly"}}, Policy: "seq", LockIgnoresCtx: true, Faults: map[string]int{"0:Lock:": c01fCancel}, Backend: "file", Class: "generic"},
 		// the real FileStorage Locker behind the gate: its lock file name is Safe(lock key), so upper- and
 		// lower-case callers of ObtainCertSync share one lock there (they do not on a raw-key Locker)
 		{Threads: []c01issThread{th("obtain", c01nmUpper), th("obtain", c01nmCanon)}, Policy: "seq", Pause: map[string]string{"0": "IssueEnd:"}, Backend: "file", Class: "generic"},
@@ -110,6 +118,9 @@ func c01Emit(w *emit.Writer, cs c01issCase, o *c01issObs) {
 	w.Hist("backend=" + map[string]string{"": "memory", "file": "file"}[cs.Backend])
 	if cs.CrashLock != "" {
 		w.Hist("dead_holder_lock_file=" + cs.CrashLock)
+	}
+	if cs.LockIgnoresCtx {
+		w.Hist("cancel_at_lock_gate_granted_anyway=1")
 	}
 	w.Hist("programs=" + c01issProgKey(cs))
 	w.Hist(fmt.Sprintf("threads=%d", len(cs.Threads)))
@@ -207,6 +218,20 @@ func c01Random(r *rand.Rand, tier string) c01issCase {
 		} else {
 			pat := []string{"IssueStart:", "IssueEnd:", "Event:cert_obtaining", "Event:cert_obtained", "Load:.key", "Load:.crt", "Load:.json", "Exists:.crt", "Lock:", "Store:.key", "Store:.crt", "Store:.json", "Delete:.key"}
 			cs.Faults[fmt.Sprintf("%d:%s", t, pat[r.Intn(len(pat))])] = f
+		}
+	}
+	// the only fault: one synchronous request's context ends at its Lock gate, the lock is granted anyway
+	if !spelling && cs.Class == "generic" && r.Intn(12) == 0 {
+		var cand []int
+		for i, t := range cs.Threads {
+			if !t.Async && t.Prog != "handshake" {
+				cand = append(cand, i)
+			}
+		}
+		if len(cand) > 0 {
+			cs.LockIgnoresCtx = true
+			cs.Faults = map[string]int{fmt.Sprintf("%d:Lock:", cand[r.Intn(len(cand))]): c01fCancel}
+			return cs
 		}
 	}
 	// a request is cancelled while it waits for the lock (the holder is alive)
